@@ -1600,6 +1600,7 @@ fn gen_pipes(rng: &mut Rng, nres: usize, min_pipes: usize) -> Vec<Pipe> {
     let mut pipes = Vec::new();
     // default groups: mostly pairwise different, so that a layout leaking from one pipeline to the next shows
     let first = rng.below(4) as u32;
+    let all_mesh = rng.chance(1, 8);
     for k in 0..np {
         let dflt = match rng.below(6) {
             0 => None,
@@ -1628,8 +1629,10 @@ fn gen_pipes(rng: &mut Rng, nres: usize, min_pipes: usize) -> Vec<Pipe> {
                 dspell.push(c);
             }
         }
-        let graphics = rng.chance(1, 3);
-        let mut pipe = Pipe { name, dflt, graphics, uses, share: None, dspell, mesh: graphics && rng.chance(1, 3) };
+        // a file with a mesh entry point: every pipeline is mesh + pixel (the Metal exporter refuses to build another
+        // kind of pipeline from a file that calls SetMeshOutputCounts: InvalidPipelineForMeshIntrinsic)
+        let graphics = all_mesh || rng.chance(1, 3);
+        let mut pipe = Pipe { name, dflt, graphics, uses, share: None, dspell, mesh: all_mesh };
         // now and then the same entry points as an earlier pipeline (with, mostly, another default group)
         if k > 0 && rng.chance(1, 4) {
             let j = rng.below(k as u64) as usize;
@@ -1950,6 +1953,9 @@ pub fn run_prog(p: &Prog, rng: &mut Rng, out: &mut Out, hist: &mut Hist) {
             }
             run_case(tgt, &Mode::Named(n), p, out, hist);
         }
-        run_case(tgt, &Mode::NoPipeline, p, out, hist);
+        // (no-pipeline mode of a file with a mesh entry point is refused by the Metal exporter)
+        if !(t == Tgt::Msl && p.pipes.iter().any(|x| x.mesh)) {
+            run_case(tgt, &Mode::NoPipeline, p, out, hist);
+        }
     }
 }
